@@ -1,14 +1,14 @@
 CONSTANTS
   W = 2
-  Limit = 1
+  Limit = 2
   L = 2
   Uds = {2}
-  MaxConns = 2
+  MaxConns = 3
   MaxFaults = 0
   MaxCmds = 3
-  MaxErrs = 1
+  MaxErrs = 2
   MaxBare = 0
-  WakeAt = 2
+  WakeAt = 3
   IgnoreUnknownIdx = TRUE
   UnlinkOnDeregister = FALSE
   ResumeClearsBackoff = TRUE
